@@ -269,6 +269,8 @@ pub fn run(tier: Tier, seed: u64) -> i32 {
     report.set("traces_validated_against_impl", json!(total));
     report.sample("split", json!({"data": "0102030405", "cuts": [0, 2, 2, 5], "files": ["", "0102", "", "030405", ""], "expected": "same 20 bytes as the single-buffer function and SHA1(key | HMAC-SHA1(salt, data))"}));
     report.assume("file contents: three patterns per length; not the whole content space");
+    report.set("exhaustive", json!(false));
+    report.cap_hit("all distributions per length are closed; contents, salts and keys are patterns");
     report.finish()
 }
 
